@@ -944,7 +944,7 @@ static int run_history(char *line)
          if (toks[t] == 's') opus_encoder_ctl(enc, OPUS_SET_BITRATE(br2));
          for (f = 0; f < run; f++) {
             int i = t * run + f, r; opus_uint32 rng = 0;
-            hx_arm(20);
+            hx_arm(120);
             r = opus_encode(enc, in + (size_t)i * frame * ch, frame, pk[lv] + (size_t)i * 1500, 1500);
             hx_disarm();
             opus_encoder_ctl(enc, OPUS_GET_FINAL_RANGE(&rng));
@@ -989,7 +989,7 @@ static int run_history(char *line)
                   if (i + 1 < nfr && plen[src][i + 1] > 0) { p = pk[src] + (size_t)(i + 1) * 1500; n = plen[src][i + 1]; fecflag = 1; }
                   else { p = NULL; n = 0; }
                }
-               hx_arm(20);
+               hx_arm(120);
 #if FX
                r = opus_decode(dec, p, n, out, frame, fecflag);
 #else
